@@ -4,8 +4,9 @@
 //
 // cases.json: [case, ...]
 //
-//	{"id":n,"side":"req"|"resp","via":"routing","seq":[action,...]}
-//	    the real routing.getSPOEReqActions / getSPOERespActions (fold + SPOE encoding) on that sequence
+//	{"id":n,"side":"req"|"resp","via":"routing","seq":[action,...],"h":H}
+//	    the real routing.getSPOEReqActions / getSPOERespActions (fold + SPOE encoding) on that sequence; with H > 0 the
+//	    consecutive cases of history H share action instances and header map objects (equal values = same object)
 //	{"id":n,"side":"req"|"resp","via":"runner","remedies":[remedy,...],"headers":{..},"status":s}
 //	    the real runner.runOnRequest / runOnResponse over real remedy plugins configured by `remedies`;
 //	    the actions the plugins produced are observed at the verif points runner.req_action / runner.resp_action
@@ -17,6 +18,7 @@
 package main
 
 import (
+	"encoding/json"
 	"fmt"
 	"os"
 	"sort"
@@ -70,6 +72,74 @@ type Case struct {
 	Headers  map[string]string `json:"headers,omitempty"`
 	Status   int               `json:"status,omitempty"`
 	Body     string            `json:"body,omitempty"`
+	// H > 0: the case belongs to history H. All cases of one history (consecutive in the file) draw their actions from one
+	// pool: equal action values are the SAME action instance and equal header maps the SAME map object, within a sequence
+	// and across the folds of the history (a processor handing out its configured action / header map again).
+	H int `json:"h,omitempty"`
+}
+
+// pool of interned action instances and header maps of one history
+type pool struct {
+	h    int
+	req  map[string]actions.ReqLunarAction
+	resp map[string]actions.RespLunarAction
+	maps map[string]map[string]string
+}
+
+var cur = &pool{}
+
+func (p *pool) enter(h int) {
+	if h != p.h || h == 0 {
+		*p = pool{h: h, req: map[string]actions.ReqLunarAction{}, resp: map[string]actions.RespLunarAction{}, maps: map[string]map[string]string{}}
+	}
+}
+
+func key(v any) string {
+	b, err := json.Marshal(v)
+	if err != nil {
+		vh.Die("marshal: %v", err)
+	}
+	return string(b)
+}
+
+// hmapOf returns the header map for h: a fresh one, or inside a history the one shared map object of that value
+func (p *pool) hmapOf(h [][2]string) map[string]string {
+	if p.h == 0 {
+		return hmap(h)
+	}
+	k := key(h)
+	if m, ok := p.maps[k]; ok {
+		return m
+	}
+	m := hmap(h)
+	p.maps[k] = m
+	return m
+}
+
+func (p *pool) reqOf(a Act) actions.ReqLunarAction {
+	if p.h == 0 {
+		return reqAction(a)
+	}
+	k := key(a)
+	if x, ok := p.req[k]; ok {
+		return x
+	}
+	x := reqAction(a)
+	p.req[k] = x
+	return x
+}
+
+func (p *pool) respOf(a Act) actions.RespLunarAction {
+	if p.h == 0 {
+		return respAction(a)
+	}
+	k := key(a)
+	if x, ok := p.resp[k]; ok {
+		return x
+	}
+	x := respAction(a)
+	p.resp[k] = x
+	return x
 }
 
 type Out struct {
@@ -121,13 +191,13 @@ func reqAction(a Act) actions.ReqLunarAction {
 	case "noop":
 		return &actions.NoOpAction{}
 	case "early":
-		return &actions.EarlyResponseAction{Status: a.St, Body: a.B, Headers: hmap(a.H)}
+		return &actions.EarlyResponseAction{Status: a.St, Body: a.B, Headers: cur.hmapOf(a.H)}
 	case "modh":
-		return &actions.ModifyHeadersAction{HeadersToSet: hmap(a.H)}
+		return &actions.ModifyHeadersAction{HeadersToSet: cur.hmapOf(a.H)}
 	case "modreq":
-		return &actions.ModifyRequestAction{HeadersToSet: hmap(a.H), Host: a.Ho, Path: a.P, QueryParams: a.Q, Body: a.B}
+		return &actions.ModifyRequestAction{HeadersToSet: cur.hmapOf(a.H), Host: a.Ho, Path: a.P, QueryParams: a.Q, Body: a.B}
 	case "gen":
-		return &actions.GenerateRequestAction{HeadersToSet: hmap(a.H), HeadersToRemove: strs(a.Rm), Body: a.B}
+		return &actions.GenerateRequestAction{HeadersToSet: cur.hmapOf(a.H), HeadersToRemove: strs(a.Rm), Body: a.B}
 	}
 	vh.Die("unknown request action kind %q", a.K)
 	return nil
@@ -138,9 +208,9 @@ func respAction(a Act) actions.RespLunarAction {
 	case "noop":
 		return &actions.NoOpAction{}
 	case "modresp":
-		return &actions.ModifyResponseAction{HeadersToSet: hmap(a.H), Body: a.B, Status: a.St}
+		return &actions.ModifyResponseAction{HeadersToSet: cur.hmapOf(a.H), Body: a.B, Status: a.St}
 	case "retry":
-		return &actions.RetryRequestAction{HeadersToSet: hmap(a.H)}
+		return &actions.RetryRequestAction{HeadersToSet: cur.hmapOf(a.H)}
 	}
 	vh.Die("unknown response action kind %q", a.K)
 	return nil
@@ -291,19 +361,19 @@ func viaRouting(c Case) vh.Ev {
 	if c.Side == "req" {
 		list := make([]actions.ReqLunarAction, len(c.Seq))
 		for i, a := range c.Seq {
-			list[i] = reqAction(a)
+			list[i] = cur.reqOf(a)
 		}
 		args := lunarMessages.OnRequest{ID: "t", SequenceID: "t", Method: "GET", URL: "api.test/x", Path: "/x",
 			Headers: map[string]string{"host": "api.test"}}
-		return vh.Ev{"ev": "req", "id": c.ID, "via": c.Via, "seq": c.Seq, "out": decode(routing.VerifGetSPOEReqActions(args, list))}
+		return vh.Ev{"ev": "req", "id": c.ID, "via": c.Via, "h": c.H, "seq": c.Seq, "out": decode(routing.VerifGetSPOEReqActions(args, list))}
 	}
 	list := make([]actions.RespLunarAction, len(c.Seq))
 	for i, a := range c.Seq {
-		list[i] = respAction(a)
+		list[i] = cur.respOf(a)
 	}
 	args := lunarMessages.OnResponse{ID: "t", SequenceID: "t", Method: "GET", URL: "api.test/x", Status: 200,
 		Headers: map[string]string{"content-type": "text/plain"}}
-	return vh.Ev{"ev": "resp", "id": c.ID, "via": c.Via, "seq": c.Seq, "out": decode(routing.VerifGetSPOERespActions(args, list))}
+	return vh.Ev{"ev": "resp", "id": c.ID, "via": c.Via, "h": c.H, "seq": c.Seq, "out": decode(routing.VerifGetSPOERespActions(args, list))}
 }
 
 // real remedy plugins, fresh per case
@@ -413,6 +483,7 @@ func main() {
 		if c.Seq == nil {
 			c.Seq = []Act{}
 		}
+		cur.enter(c.H)
 		switch c.Via {
 		case "routing":
 			tr.Add(viaRouting(c))
